@@ -454,6 +454,9 @@ func (m *Merged) report(wall float64) int {
 		cov["samples"] = []any{"(no case executed)"}
 	}
 	seed, _ := strconv.ParseInt(os.Getenv("VERIF_SEED"), 10, 64)
+	if m.Check.Assumptions == nil {
+		m.Check.Assumptions = []string{"reference model mc/ref encodes the documented language (DESIGN.md appendix A)"}
+	}
 	ev := map[string]any{
 		"property_id": id,
 		"tier":        m.Tier,
